@@ -186,6 +186,8 @@ def _dead_after(fnode, stmt, call):
         p = getattr(p, '_parent', None)
     if p is not fnode:
         return ()
+    if loop is not None:
+        return ()           # in a loop the call itself reads its arguments again in the next iteration
     inside_stmt = {id(x) for x in ast.walk(stmt)}
     live = set()
     for n in ast.walk(fnode):
@@ -200,6 +202,19 @@ def _dead_after(fnode, stmt, call):
         if n is not fnode and isinstance(n, (ast.FunctionDef, ast.AsyncFunctionDef, ast.Lambda)):
             live |= {x.id for x in ast.walk(n) if isinstance(x, ast.Name) and x.id in names}
     return tuple(sorted((names & own) - live - decl))
+
+
+def _tuple_handback(targets, rets, argname, param):
+    """`.., a, .. = h(.., a, ..)` where every return of h hands the final value of the parameter back in that position."""
+    if not (targets and len(targets) == 1 and isinstance(targets[0], ast.Tuple) and rets):
+        return False
+    elts = targets[0].elts
+    pos = [i for i, t_ in enumerate(elts) if isinstance(t_, ast.Name) and t_.id == argname]
+    if len(pos) != 1:
+        return False
+    i = pos[0]
+    return all(isinstance(r.value, ast.Tuple) and len(r.value.elts) == len(elts) and isinstance(r.value.elts[i], ast.Name)
+               and r.value.elts[i].id == param for r in rets)
 
 
 def expand_call(call, helper, kind, targets, uid, self_arg=None, dead=()):
@@ -254,7 +269,8 @@ def expand_call(call, helper, kind, targets, uid, self_arg=None, dead=()):
         # a parameter the helper rebinds may still take the caller's name when the caller's variable is dead
         # afterwards (`return h(a)`) or is assigned the helper's final value of that parameter (`a = h(a)`)
         exact = isinstance(x, ast.Name) and p in stores and argnames.count(x.id) == 1 and (
-            kind == 'return' or x.id in dead or (tname == x.id and rets and all(isinstance(r.value, ast.Name) and r.value.id == p for r in rets)))
+            kind == 'return' or x.id in dead or (tname == x.id and rets and all(isinstance(r.value, ast.Name) and r.value.id == p for r in rets))
+            or _tuple_handback(targets, rets, x.id, p))
         if isinstance(x, ast.Name) and (p not in stores or exact):
             mapping[p] = x.id
         elif isinstance(x, ast.Constant) and p not in stores:
@@ -649,17 +665,45 @@ _OPBIN = {'add': ast.Add, 'sub': ast.Sub, 'mul': ast.Mult, 'truediv': ast.Div, '
 _OPINPLACE = {'iadd': ast.Add, 'isub': ast.Sub, 'imul': ast.Mult, 'itruediv': ast.Div, 'ifloordiv': ast.FloorDiv, 'ipow': ast.Pow}
 
 
-def _operator_calls(fnode):
-    """`operator.ne(a, b)` -> `a != b`, `operator.add(a, b)` -> `a + b`, `operator.not_(a)` -> `not a`, `operator.neg(a)` -> `-a`
-    (the functional spelling of an operator, typically after a table of operators was unrolled)."""
+def _operator_calls(fnode, modtree=None):
+    """`operator.ne(a, b)` -> `a != b`, `operator.add(a, b)` -> `a + b`, `operator.not_(a)` -> `not a`, `operator.neg(a)` -> `-a`,
+    `t = operator.iadd(t, v)` -> `t += v` (the functional spelling of an operator, typically after a table of operators was
+    unrolled or an operator was passed to a helper); also for names imported from the operator module."""
     changed = [False]
+    mods, names = {'operator'}, {}
+    for n in (modtree.body if modtree is not None else []):
+        if isinstance(n, ast.Import):
+            for a_ in n.names:
+                if a_.name == 'operator':
+                    mods.add(a_.asname or 'operator')
+        elif isinstance(n, ast.ImportFrom) and n.module == 'operator' and not n.level:
+            for a_ in n.names:
+                names[a_.asname or a_.name] = a_.name
+    local = {x.id for x in ast.walk(fnode) if isinstance(x, ast.Name) and isinstance(x.ctx, ast.Store)} | \
+        {x.arg for x in fnode.args.posonlyargs + fnode.args.args + fnode.args.kwonlyargs}
+
+    def opname(f):
+        if isinstance(f, ast.Attribute) and isinstance(f.value, ast.Name) and f.value.id in mods and f.value.id not in local:
+            return f.attr
+        if isinstance(f, ast.Name) and f.id in names and f.id not in local:
+            return names[f.id]
+        return None
 
     class T(ast.NodeTransformer):
+        def visit_Assign(self, node):
+            v = node.value
+            if isinstance(v, ast.Call) and not v.keywords and len(v.args) == 2 and len(node.targets) == 1:
+                nm = opname(v.func)
+                if nm in _OPINPLACE and ast.dump(node.targets[0]).replace('Store()', 'Load()') == ast.dump(v.args[0]):
+                    changed[0] = True
+                    return ast.copy_location(ast.AugAssign(target=node.targets[0], op=_OPINPLACE[nm](), value=self.visit(v.args[1])), node)
+            return self.generic_visit(node)
+
         def visit_Call(self, node):
             self.generic_visit(node)
-            f = node.func
-            if isinstance(f, ast.Attribute) and isinstance(f.value, ast.Name) and f.value.id == 'operator' and not node.keywords:
-                nm, a = f.attr, node.args
+            nm = opname(node.func)
+            if nm is not None and not node.keywords:
+                a = node.args
                 if nm in _OPCMP and _OPCMP[nm] is not None and len(a) == 2:
                     changed[0] = True
                     return ast.copy_location(ast.Compare(left=a[0], ops=[_OPCMP[nm]()], comparators=[a[1]]), node)
@@ -894,7 +938,7 @@ def inline_program(prog):
         before = count
         fn.node.body = rewrite_block(fn, fn.node.body, 0)
         folded = _unroll_table_loops(fn.node, fn.module.tree)
-        folded = _operator_calls(fn.node) or folded
+        folded = _operator_calls(fn.node, fn.module.tree) or folded
         folded = _fold_return_vars(fn.node) or folded
         folded = _expand_star_tuples(fn.node) or folded
         folded = _fold_condition_vars(fn.node) or folded
@@ -937,8 +981,20 @@ def inline_program(prog):
                     cnt[x.id] = cnt.get(x.id, 0) + 1
             if any((cnt.get(p_, 0) != 1) and not simple(a_) for p_, a_ in zip(params, args)):
                 return node
-            if any(isinstance(x, (ast.Lambda, ast.ListComp, ast.DictComp, ast.SetComp, ast.GeneratorExp)) for x in ast.walk(expr)):
-                return node
+            # comprehensions / lambdas in the helper's expression: their variables must not capture a name of the arguments
+            # nor rebind a parameter
+            inner = set()
+            for x in ast.walk(expr):
+                if isinstance(x, (ast.ListComp, ast.DictComp, ast.SetComp, ast.GeneratorExp)):
+                    for g_ in x.generators:
+                        inner |= {y.id for y in ast.walk(g_.target) if isinstance(y, ast.Name)}
+                elif isinstance(x, ast.Lambda):
+                    la = x.args
+                    inner |= {y.arg for y in la.posonlyargs + la.args + la.kwonlyargs + ([la.vararg] if la.vararg else []) + ([la.kwarg] if la.kwarg else [])}
+            if inner:
+                argnames_ = {y.id for a_ in args for y in ast.walk(a_) if isinstance(y, ast.Name)}
+                if inner & (argnames_ | set(params)):
+                    return node
             new = _Renamer(dict(zip(params, args))).visit(_copy(expr))
             for x in ast.walk(new):
                 if not hasattr(x, 'lineno'):
